@@ -7,7 +7,7 @@ CLAIM = dict(
     text='SparseCSC.tla holds the abstract matrix (a finite map from positions to values) next to the concrete compressed-column state on which the algorithms of src/sparse.rs are transcribed (stable sort by column + counting pass, column-index expansion, first-hit lookup, insert = overwrite or rebuild, transpose = count/prefix-sum/scatter, column walks for to_triplets/to_dense). '
          'TLC (i) explores the history machine exhaustively - every shape 0..2 x 0..3, every duplicate-free entry set of <= 3 entries in every triplet order, then every history of <= 3 operations from insert(new)/insert(overwrite)/scale/transpose (thorough: 0..3 x 0..3 with <= 3 entries / 2 operations, 0..2 x 0..3 with <= 4 entries / 3 operations, 0..2 x 0..2 with <= 4 entries / 4 operations) - with the invariants WellFormed, Refines (abstract content of the concrete state = abstract matrix), Views (get, to_triplets, to_dense, col_index and the triplet / raw-array round trips all describe the abstract matrix) in every state; '
          '(ii) enumerates those behaviours as cases (from_triplets in every order, and from_vecs on the arrays in every within-column order) replayed on the real Sparse<Rat>/Sparse<f64>; (iii) validates event by event recorded executions over all shapes 0..8 x 0..8, every permutation of the triplet list for <= 5 entries, random permutations beyond, raw-array inputs with empty border rows/columns, special patterns and histories of 50 operations: after every step the six public fields must be well-formed storage whose abstract content equals the reference map, and get on every position, to_triplets, to_dense and col_index must each describe that map. Exact (integers).',
-    note='Decided exactly by TLC: the model-level invariants in the stated small scope, and for every recorded step the equality of abstract content and views with the reference. The order of row indices inside a column is not demanded (compared with the transcription only as an informational note in the evidence). Duplicate entries count as ill-formed. Trusted: TLC, the abstract operators of SparseCSC.tla (cross-checked against the transcribed algorithms by the Refines/Views invariants, and the linear refinement test against its definition on perturbed maps), the harness projection of the public fields and view results to integers. Behaviour on out-of-range positions or duplicate triplets is outside the property and not generated.',
+    note='Decided exactly by TLC: the model-level invariants in the stated small scope, and for every recorded step the equality of abstract content and views with the reference. Content and views are compared BY VALUE: an explicitly stored zero and an absent entry are the same (get may answer Some(0) or None, to_triplets / the entry count may or may not include it), but the value 0 must be reported by every view after an overwrite with 0 or a scaling by 0; the arrays must be well-formed and duplicate-free either way. The order of row indices inside a column is not demanded (compared with the transcription only as an informational note in the evidence). Duplicate entries count as ill-formed. Trusted: TLC, the abstract operators of SparseCSC.tla (cross-checked against the transcribed algorithms by the Refines/Views invariants, and the linear refinement test against its definition on perturbed maps), the harness projection of the public fields and view results to integers. col_index is compared with the expansion of the logged (well-formed) column starts. Behaviour on out-of-range positions or duplicate triplets is outside the property and not generated.',
     design='4 (C06)')
 
 
@@ -16,7 +16,9 @@ def check(ctx):
     inv = 'WellFormed, Refines, Views, linear-refinement equivalence in every state'
     if q:
         ctx.tlc_mc('MC_SparseCSC', 'MC_SparseCSC_quick.cfg', label='history machine: shapes 0..2 x 0..3, every entry set of <= 3 entries in every triplet order, every history of <= 3 insert/overwrite/scale/transpose; ' + inv)
+        ctx.tlc_mc('MC_SparseCSC', 'MC_SparseCSC_zero_quick.cfg', label='same machine with explicit zeros (initial zero entry, insert of 0 new/overwrite, scale by 0): shapes 0..2 x 0..3, <= 3 entries, <= 2 operations; + Inv_Value (by-value tests = definition; a storage that drops zeros passes)')
     else:
+        ctx.tlc_mc('MC_SparseCSC', 'MC_SparseCSC_zero.cfg', label='same machine with explicit zeros (initial zero entry, insert of 0 new/overwrite, scale by 0): shapes 0..2 x 0..3, <= 3 entries, <= 3 operations; + Inv_Value')
         ctx.tlc_mc('MC_SparseCSC', 'MC_SparseCSC.cfg', label='history machine: shapes 0..3 x 0..3, every entry set of <= 3 entries in every triplet order, every history of <= 2 operations; ' + inv)
         ctx.tlc_mc('MC_SparseCSC', 'MC_SparseCSC_deep.cfg', label='same machine: shapes 0..2 x 0..3, <= 4 entries in every order, histories of <= 3 operations; ' + inv)
         ctx.tlc_mc('MC_SparseCSC', 'MC_SparseCSC_deep2.cfg', label='same machine: shapes 0..2 x 0..2, <= 4 entries (the full matrix) in every order, histories of <= 4 operations; ' + inv)
@@ -27,6 +29,12 @@ def check(ctx):
     ctx.validate('Trace_SparseCSC', ev, gen, 'sparse', nontrivial=nontrivial)
     ctx.exhaustive_parts.append('all model behaviours of length 2 on shapes 0..2 x 0..%d (every entry set <= 3, every triplet order; from_triplets and from_vecs) replayed on the real Sparse' % (2 if q else 3))
     ctx.notes.append('informational (never a violation): the storage order of the real object equals the transcribed algorithms\' order in %d of %d replayed steps' % (conf[0] - conf[1], conf[0]))
+    # ... and the behaviours of the machine with explicit zeros
+    genz = ctx.tlc_cases('MC_SparseCSC', 'Gen_SparseCSC_zero_quick.cfg' if q else 'Gen_SparseCSC_zero.cfg', transform=transform_c06(both_ctors=not q), name='gen_sparse_c06_zero')
+    evz = ctx.exec('sparse', genz)
+    op_counts(evz, STATE_OPS)
+    ctx.validate('Trace_SparseCSC', evz, genz, 'sparse', nontrivial=nontrivial)
+    ctx.exhaustive_parts.append('all model behaviours of length 2 with explicit zeros (zero initial entry, insert 0, scale by 0) on shapes 0..2 x 0..2, <= %d entries' % (2 if q else 3))
     # impl -> spec: the property's full stated range
     cases = ctx.gen('sparse')
     ev = ctx.exec('sparse', cases)
@@ -37,6 +45,6 @@ def check(ctx):
     return ctx.finish(
         rule='cases: (i) every TLC-enumerated behaviour of the history machine (from_triplets in every order / from_vecs in every within-column order, then 2 operations), '
              '(ii) per shape (r,c) in 0..8^2 a random duplicate-free pattern in random triplet order or as raw arrays + 6 operations, (iii) all n! triplet orders of patterns with n <= 5 entries (half of them confined to two columns) + transpose, '
-             '(iv) raw compressed-column arrays with shuffled columns and empty border rows/columns, (v) empty/full/diagonal/single-column/single-row patterns, (vi) histories of 50 insert(new)/overwrite/scale/transpose operations with occasional re-construction; element types Rat and f64 (integer data). '
+             '(iv) raw compressed-column arrays with shuffled columns and empty border rows/columns, (v) empty/full/diagonal/single-column/single-row patterns, (vi) histories of 50 insert(new)/overwrite/scale/transpose operations with occasional re-construction, (vii) zero-centred histories: overwrite of an existing entry with 0, new entry 0, scale by 0, transposes in between, non-zero over zero; explicit zeros also occur at random in every other family (8% of constructor values, 12%/25% of new/overwriting inserts); element types Rat and f64 (integer data). '
              'An event is non-trivial if the matrix has at least one stored entry (or the call panicked); distinct = distinct (operation, arguments, logged fields and views).',
         trusted=['harness projection of Sparse<T> fields and view results to integers (harness/src/suites/sparse.rs)', 'TLC', 'abstract operators of SparseCSC.tla as the reference'])
